@@ -147,7 +147,20 @@ func runC08(rng *rand.Rand, ncases int, emit emitter) error {
 		return err
 	}
 	defer gone.Shutdown()
-	nodes := []*psim.Node{a, b}
+	// a third node with a much longer proxy timeout hosts endpoint "ec": a node that forwards a request applies
+	// its own timeout, whatever the node it forwards to would do
+	c, err := psim.StartNode(psim.NodeOpts{ID: "c", ProxyTimeout: 3 * time.Second, Join: []string{a.GossipAddr()}})
+	if err != nil {
+		return err
+	}
+	defer c.Stop()
+	upc, err := psim.Listen(context.Background(), c.UpstreamAddr(), "ec", "u-c", "", "")
+	if err != nil {
+		return err
+	}
+	defer upc.Shutdown()
+	upc.Behave = c08behave
+	nodes := []*psim.Node{a, b, c}
 	if !psim.WaitFor(10*time.Second, func() bool { return psim.Settled(nodes, "") }) {
 		return fmt.Errorf("c08: did not settle")
 	}
@@ -287,6 +300,7 @@ func runC08(rng *rand.Rand, ncases int, emit emitter) error {
 		// any other protocol upgrade is an ordinary request as far as the timeout goes
 		{name: "slow-other-upgrade", ep: "e", hdr: map[string]string{"X-Behave": "slow", "Upgrade": "h2c", "Connection": "Upgrade"}},
 	}
+	fcs = append(fcs, fc{name: "slow", ep: "ec", hdr: map[string]string{"X-Behave": "slow"}})
 	for _, f := range fcs {
 		if f.ep == "e" {
 			g := f
